@@ -122,6 +122,17 @@ def cases(sh, tier):
         yield {"a": alt, "p": p, "axis": NAMES[p], "new": new, "nm": name, "lr": None, "issorted": None, "form": "list"}
 
 
+    # narrow / unsigned LABEL types (uint8, uint64, int8): differences between neighbouring labels wrap around in the labels' own type
+    if sh["kind"] == "i" and len(sh["lab"]) >= 2 and sh["nd"] <= 2:
+        for ldt in ("uint8", "uint64", "int8"):
+            u = dict(s, ldt=[ldt if i == p else None for i in range(sh["nd"])])
+            u.pop("var", None)
+            for name, new in _newvecs(sh["lab"], sh["kind"]).items():
+                if name in ("identity", "sorted_all", "unsorted", "outside"):
+                    yield {"a": u, "p": p, "axis": NAMES[p] if ldt != "uint64" else p, "new": new, "nm": name, "lr": None if ldt != "int8" else [-1.0, -2.0],
+                           "issorted": None, "form": "list"}
+
+
 def _ds_cases(j):
     labs = [[20, 10, 30], [0.5, 1.5, 2.5], [30, 20, 10], [10, 30, 20, 40], [10], [1.5, 0.5]][j]
     kind = "f" if isinstance(labs[0], float) else "i"
